@@ -1,5 +1,6 @@
 import SFV.Lemmas.GatherMore
 import SFV.Lemmas.GatherTerm
+import SFV.Lemmas.GatherNested
 /-! # C01 — scatter then gather returns the original list in its original order
 
 Property theorems only; the development is in `SFV/Lemmas/Gather*.lean`, the model in `SFV/Model/Gather.lean`.
@@ -154,6 +155,28 @@ theorem gather_nested {V} (p : Tag) (xss : List (List V)) (es1 : List (Ev V)) (e
     (by intro g hg; simp at hg; subst hg; exact hsorted)
     es2 hp2 pc pd hcd sc sd
   exact List.perm_singleton.mp this.1
+
+/-- **nested scatters of ANY depth `d`.** A token `⟨p, v⟩` whose value is a `d`-level nested list is scattered `d`
+    times and regathered by `d` chained gather steps; `Regather d [⟨p, v⟩] out` lets EVERY stage see its tokens (the
+    list tokens of the previous stage, in the order they happened to be emitted, and the size tokens of the matching
+    scatter level) in an arbitrary interleaving. The result is exactly the original token: same tag, same nested value
+    (hence every sub-list in its original order). Instantiate `d` at 1, 2, 3 for the property's range. -/
+theorem gather_nested_any_depth {V} (d : Nat) (p : Tag) (v : NV V) (hv : Deep d v) (out : List (Tok (NV V)))
+    (h : Regather d [⟨p, v⟩] out) : out = [⟨p, v⟩] :=
+  List.perm_singleton.mp (regather_perm d [⟨p, v⟩] out (by simp) (by simpa using hv) h)
+
+/-- the same for several nested tokens with distinct tags regathered together -/
+theorem gather_nested_any_depth_multi {V} (d : Nat) (T out : List (Tok (NV V))) (hnd : (T.map (·.tag)).Nodup)
+    (hdeep : ∀ t ∈ T, Deep d t.val) (h : Regather d T out) : out.Perm T :=
+  regather_perm d T out hnd hdeep h
+
+/-- non-vacuity of `Regather`: a one-level instance with its tokens in scatter order; and a 3-deep value -/
+example : Regather 1 [(⟨[0], .node [.leaf 1, .leaf 2]⟩ : Tok (NV Nat))]
+    ((run 1 ((([(⟨[0], .node [.leaf 1, .leaf 2]⟩ : Tok (NV Nat))].flatMap scatterElems).map Ev.elem ++
+        [(⟨[0], .node [.leaf 1, .leaf 2]⟩ : Tok (NV Nat))].map sizeEv) ++ [.term .size .completed, .term .elem .completed])).out.map asTokNV) :=
+  .succ _ .size .elem (by decide) .completed .completed (.zero (List.Perm.refl _)) (List.Perm.refl _) rfl
+example : Deep 3 (NV.node [.node [.node [.leaf 1, .leaf 2], .node []], .node []] : NV Nat) := by
+  simp [Deep]
 
 /-- **forced gathering.** If the size token never arrives, the elements received for key `p` (in arrival order
     `ts`, any tags with key `p` under `depth`) are gathered when both ports have terminated — sorted by tag —
